@@ -61,6 +61,7 @@ const STAGES: &[(&str, StageFn)] = &[
     ("c10.sched_random", c10::sched_random),
     ("c10.cli", c10::cli),
     ("c10.stress", c10::stress),
+    ("c10.large", c10::large),
     ("c11.one", cgr::one),
     ("c11.reject", cgr::reject),
     ("c11.file", cgr::file),
